@@ -24,4 +24,5 @@ PROPERTIES
   C01_Told
   C05_Drains
 VIEW View
+SYMMETRY Symm
 CHECK_DEADLOCK FALSE
